@@ -420,6 +420,7 @@ C12_STRINGS = ["a = 1; a", "1", "1.5", '"s"', "true", "(1,2)", "()", "", "a", "b
                "\ufeff1 + 2", "\ufeffx", "\ufeff", "\ufeff a", "a\ufeff", "\u200b1", "1 +\ufeff 2",
                "e0", "t1", "t3", "qn", "s0", "mn", "nz", "ni", "mk0()", "mk1()", "f(e0)", "(e0, t1)", "e0 == t1", "qn == qn", "s0 + s0", "-mn", "mn - 1", "nz * 1", "len(e0)", "len(s0)",
                "str::from(t3)", "typeof(e0)", "q2 = e0; q2", "q3 = mk0(); q3", "math::abs(mn)", "nz + nz", "min(1, 2)", "typeof(min)",
+               "PI", "2 * PI", "E", "E = 3; E + 1", "TAU", "SQRT_2 * SQRT_2", "LN_2", "FRAC_PI_2", "pi", "math::pi",
                "1 / 0; (", "a = 1; )", "k = 8; b =", "missing; 1 +", "h(1); )", "a = 2; 1 2", "a = 2; (1,", "f(1); a = 3; \"",
                "nf(1)", "nf(1.5)", "nf(a)", "nf(b)", "nf(c)", "nn(c)", "nn(a)", "nf a", "nf(1) + 1", "nf(x)", "nn(y)", "nf(())"]
 # consecutive evaluations of strings that differ only in separators inside or between tokens: each is evaluated on its own
@@ -480,6 +481,12 @@ def c12_gen(tier, rng):
                 ty = rng.choice("visnbte")
                 ops += ["evc smv " + hexs(src), "evpc mv", "evc srv " + hexs(src), "evpc rv", "evc sm%s %s" % (ty, hexs(src)), "evpc m" + ty, rng.choice(muts)]
             cases.append((G.script("H", ops), {"kind": "stored-tree", "src": src, "nsetup": len(C12_SETUP) + 1, "nblocks": nblocks, "ops": ops}))
+    # repeating an evaluation gives the same result, however many evaluations failed in between (in this process, this thread)
+    for valid in ["1 + (2 * 3)", "a + 1", "f(1)", "(1, (2, (3, 4)))", "len(\"abc\")"]:
+        for failing, nfail in (("1 + (2 / 0)", 120), ("((((1 / 0))))", 80), ("f(g(h(1)))", 150), ("1 + (2 + (3 + (4 + missing)))", 100), ("(", 50), ("\"", 50)):
+            ops = C12_SETUP + ["evc smv " + hexs(valid), "evc nrv " + hexs(valid)] + ["evc %s %s" % (rng.choice(["smv", "srv", "nmv", "sfv", "nfi", "srn"]), hexs(failing)) for _ in range(nfail)] + \
+                  ["evc smv " + hexs(valid), "evc nrv " + hexs(valid), "evc sfv " + hexs("1 + (2 * 3)")]
+            cases.append((G.script("H", ops), {"kind": "repeat", "src": valid, "failing": failing, "nfail": nfail, "nsetup": len(C12_SETUP)}))
     # a source that does not precompile has no effect at all, through any entry point
     for src in ["a = 1; )", "k = 8; (b =", "a = 2; 1 2", "a = 2; (1,", "q = 1; f(q); \"", "a += 1; a += 1; (", "f(1); g(1, 2); 1 +; )", "c = \"z\"; ))"]:
         for code in ("smv", "nmv", "smi", "sme", "nmt", "smn"):
@@ -498,6 +505,11 @@ def c12_gen(tier, rng):
 
 def c12_oracle(case, out, model_out):
     m = case[1]
+    if m.get("kind") == "repeat" and not out.startswith("PANIC"):
+        st = step_outputs(out)[m["nsetup"]:]
+        if st[0] != st[-3] or st[1] != st[-2] or st[-1] != "OK I7":
+            return "%r evaluated before and after %d failing evaluations of %r in the same thread: %s / %s before, %s / %s after; context-free 1 + (2 * 3) gives %s" % (m["src"], m["nfail"], m["failing"], st[0], st[1], st[-3], st[-2], st[-1])
+        return None
     if m.get("kind") == "noeffect" and not out.startswith("PANIC"):
         steps = step_outputs(out)
         d0, r, d1 = steps[-3:]
@@ -978,6 +990,17 @@ def c13_gen(tier, rng):
     for cx in ctxs:
         for fr in frags:
             cases.append(c13_case(cx.format(fr).split()))
+    for a_, b_ in (("=", "="), ("!", "="), ("<", "="), (">", "="), ("+", "="), ("-", "="), ("*", "="), ("/", "="), ("%", "="), ("^", "="), ("&&", "="), ("||", "=")):
+        for sep in ("/**/", "/* c */", "//\n", "/**//**/"):
+            if a_ == "/" and sep.startswith("/"):
+                continue
+            for l_, r_ in (("1", "1"), ("a", "2"), ("true", "true"), ("x", "b")):
+                toks = [l_, a_, b_, r_]
+                case = c13_case(toks)
+                src = l_ + " " + a_ + sep + b_ + " " + r_
+                ops = C13_SETUP + ["evc build " + hexs(src), "evc smv " + hexs(src), "evc sfv " + hexs(src), "evc srv " + hexs(src)]
+                meta = dict(case[1]); meta["src"] = src
+                cases.append((G.script("H", ops), meta))
     # deep nesting: balanced input is never reported as unbalanced, whatever the depth; one parenthesis too many or too few always is
     for d in (20, 40, 63, 64, 65, 70, 127, 128, 129, 255, 256, 257, 300, 600, 1000):
         for inner in (["1"], ["a", "+", "1"], ["f", "(", "1", ")"], ["1", ",", "2"], []):
@@ -2116,7 +2139,7 @@ def c09_cases(names_builtin, names_other, rng, full):
                     for var in ((False, True, "first") if kind in ("H", "N") else (False,)):
                         if var == "first" and not userfn:
                             continue
-                        for post in (("", "clone", "clrf", "clone-first") if kind == "H" else ("",)):
+                        for post in (("", "clone", "clrf", "clone-first", "clone+clrf", "clone+clr") if kind == "H" else ("",)):
                             if not full and rng.random() < 0.5 and post:
                                 continue
                             setup = []
@@ -2145,10 +2168,14 @@ def c09_cases(names_builtin, names_other, rng, full):
                                     setup += ["off 1", "off 0"]
                                 elif off is not None:
                                     setup.append("off %d" % off)
-                                if post and post != "clone-first":
+                                if post in ("clone+clrf", "clone+clr"):    # the original stays alive while the copy is cleared
+                                    setup += ["clone", "clrf"] if post == "clone+clrf" else ["clone", "clrf", "clrv", "init %s I3" % hexs("x"), "init %s T(I7)" % hexs("t1")]
+                                    if var and post == "clone+clr":
+                                        setup.append("init %s S%s" % (hexs(n), hexs("var")))
+                                elif post and post != "clone-first":
                                     setup.append(post)
                             disabled = {"E": True, "EB": False}.get(kind, off is True)
-                            has_user = (userfn if post != "clrf" else False)
+                            has_user = (userfn if post not in ("clrf", "clone+clrf", "clone+clr") else False)
                             forms = [("%s(3)" % n, "I3"), ("%s 3" % n, "I3"), ("%s()" % n, "E"), ("%s(3, 4)" % n, "T(I3,I4)"),
                                      ('%s "s"' % n, "S" + hexs("s")), ("%s true" % n, "B1"), ("%s 2.5" % n, "F4004000000000000"),
                                      ("%s x" % n, "I3") if kind in ("H", "N") else ("%s (())" % n, "E")]
@@ -2157,11 +2184,11 @@ def c09_cases(names_builtin, names_other, rng, full):
                             if kind in ("H", "N"):
                                 forms.append(("%s t1" % n, "T(I7)"))     # a one-element tuple is passed as it is
                                 forms.append(("%s(t1)" % n, "T(I7)"))
-                            if kind in ("H", "N") and post != "clrf":
+                            if kind in ("H", "N") and post not in ("clrf", "clone+clrf", "clone+clr"):
                                 forms.append(("wrap %s 3" % n, "I3"))
                             ops = list(setup)
-                            for src, arg in forms:
-                                ops.append("ev srv " + hexs(src))
+                            for src, arg in forms:      # resolution is the same through the shared and the mutable entry points
+                                ops.append(rng.choice(["ev srv ", "ev srv ", "evc smv ", "evc nmv "] if kind in ("H", "N") else ["ev srv "]) + hexs(src))
                             ops.append("ev srv " + hexs(n))  # the bare name is a variable
                             if kind in ("E", "EB"):
                                 ops += ["off 0", "off 1"]   # fixed policies: one of the two is refused, nothing changes
@@ -3128,7 +3155,10 @@ def c16_special(tier, rng, hooks):
         for _ in range(rng.randint(0, 8) if rng.random() < 0.8 else rng.randint(9, 40)):
             r = rng.random()
             if r < 0.7:
-                ops.append("set %s %s" % (hexs(rng.choice(["a", "b", "ä", "", "x y", "z", "variables", "functions", "without_builtin_functions", "a1", "a2", "a3", "a4", "a5", "Value", "Int", "\"", "(", "\\"])), G.rand_value(rng) if rng.random() < 0.6 else rng.choice(G.pool())))
+                if rng.random() < 0.1:
+                    ops.append("set %s %s" % (hexs("qs"), rng.choice(["S" + hexs('"hi"'), "S" + hexs('"'), "S" + hexs('""'), "T(S%s,S%s)" % (hexs('"a"'), hexs("'b'")), "S" + hexs("(1, 2)"), "S" + hexs("Int(1)"), "S" + hexs("\\\"x\\\"")])))
+                    continue
+                ops.append("set %s %s" % (hexs(rng.choice(["a", "b", "ä", "", "x y", "z", "qs", "variables", "functions", "without_builtin_functions", "a1", "a2", "a3", "a4", "a5", "Value", "Int", "\"", "(", "\\"])), G.rand_value(rng) if rng.random() < 0.6 else rng.choice(G.pool())))
             elif r < 0.85:
                 ops.append("off %d" % (rng.random() < 0.5))
             else:
